@@ -31,19 +31,42 @@ type c04EngReq struct {
 	Tamper string    `json:"tamper,omitempty"`
 	Arg    int       `json:"arg,omitempty"`
 	Shape  string    `json:"shape,omitempty"`
+	G      int       `json:"g,omitempty"` // addressed group
 }
 
+// c04EngGroup is the authentication configuration of one featured route group.
+type c04EngGroup struct {
+	Jwt    bool   `json:"jwt,omitempty"`
+	Secret int    `json:"s,omitempty"`    // index into c04Pool
+	Prev   int    `json:"p,omitempty"`    // 0: none, n>0: c04Pool[n-1]
+	Sig    bool   `json:"sig,omitempty"`
+	Strict bool   `json:"strict,omitempty"`
+	TolS   int64  `json:"tol,omitempty"`
+	Keys   string `json:"keys,omitempty"` // configured fingerprints: "ab", "a", "b"
+}
+
+func (g c04EngGroup) secret() string { return c04Pool[g.Secret] }
+func (g c04EngGroup) prev() string {
+	if g.Prev <= 0 {
+		return ""
+	}
+	return c04Pool[g.Prev-1]
+}
+func (g c04EngGroup) hasKey(fp string) bool {
+	return (fp == c04FpA && (g.Keys == "ab" || g.Keys == "a")) || (fp == c04FpB && (g.Keys == "ab" || g.Keys == "b"))
+}
+
+// one engine carries 1..4 groups; every request addresses one group and is judged
+// with the configuration of THAT group only
 type c04EngCase struct {
-	Jwt    bool        `json:"jwt"`
-	Secret string      `json:"secret,omitempty"`
-	Prev   string      `json:"prev,omitempty"`
-	Sig    bool        `json:"sig"`
-	Strict bool        `json:"strict,omitempty"`
-	TolS   int64       `json:"tol,omitempty"`
-	Reqs   []c04EngReq `json:"reqs"`
+	Groups []c04EngGroup `json:"groups"`
+	Reqs   []c04EngReq   `json:"reqs"`
 }
 
-const c04EngPath = "/api/v1/things"
+// small pool so that equal secrets with different prevSecrets (and vice versa) occur
+var c04Pool = []string{"pool-secret-0000", "pool-secret-1111", "pool-secret-2222"}
+
+func c04EngPathOf(g int) string { return fmt.Sprintf("/g%d/things", g) }
 
 func c04EngInterp(t *testing.T, c c04EngCase) (v kit.Verdict) {
 	classes := map[string]bool{}
@@ -60,69 +83,83 @@ func c04EngInterp(t *testing.T, c c04EngCase) (v kit.Verdict) {
 		})
 		type seenT struct {
 			ran    int
+			group  int
 			body   []byte
 			values map[string]any
 		}
 		var seen *seenT
 		var wantKeys []string
-		h := func(w http.ResponseWriter, r *http.Request) {
-			seen.ran++
-			seen.body, _ = io.ReadAll(r.Body)
-			for _, k := range wantKeys {
-				seen.values[k] = r.Context().Value(k)
-			}
-			w.WriteHeader(http.StatusOK)
-		}
-		fr := featuredRoutes{}
-		for _, m := range c04SigMethods {
-			fr.routes = append(fr.routes, Route{Method: m, Path: c04EngPath, Handler: h})
-		}
-		tol := time.Duration(c.TolS) * time.Second
-		if c.Jwt {
-			if c.Prev != "" {
-				WithJwtTransition(c.Secret, c.Prev)(&fr)
-			} else {
-				WithJwt(c.Secret)(&fr)
+		mk := func(g int) http.HandlerFunc {
+			return func(w http.ResponseWriter, r *http.Request) {
+				seen.ran++
+				seen.group = g
+				seen.body, _ = io.ReadAll(r.Body)
+				for _, k := range wantKeys {
+					seen.values[k] = r.Context().Value(k)
+				}
+				w.WriteHeader(http.StatusOK)
 			}
 		}
-		if c.Sig {
-			sc := SignatureConfig{Strict: c.Strict, Expire: tol}
-			for _, fp := range []string{c04FpA, c04FpB} {
-				sc.PrivateKeys = append(sc.PrivateKeys, PrivateKeyConfig{Fingerprint: fp, KeyFile: c04KeyMaterial.files[fp]})
+		for gi, g := range c.Groups {
+			fr := featuredRoutes{}
+			for _, m := range c04SigMethods {
+				fr.routes = append(fr.routes, Route{Method: m, Path: c04EngPathOf(gi), Handler: mk(gi)})
 			}
-			WithSignature(sc)(&fr)
+			if g.Jwt {
+				if g.prev() != "" {
+					WithJwtTransition(g.secret(), g.prev())(&fr)
+				} else {
+					WithJwt(g.secret())(&fr)
+				}
+			}
+			if g.Sig {
+				sc := SignatureConfig{Strict: g.Strict, Expire: time.Duration(g.TolS) * time.Second}
+				for _, fp := range []string{c04FpA, c04FpB} {
+					if g.hasKey(fp) {
+						sc.PrivateKeys = append(sc.PrivateKeys, PrivateKeyConfig{Fingerprint: fp, KeyFile: c04KeyMaterial.files[fp]})
+					}
+				}
+				WithSignature(sc)(&fr)
+			}
+			ng.addRoutes(fr)
 		}
-		ng.addRoutes(fr)
 		rt := router.NewRouter()
 		if err := ng.bindRoutes(rt); err != nil {
 			fail = "bindRoutes: " + err.Error()
 			return
-		}
-		keys := map[string]string{"cur": c.Secret, "prev": c.Prev, "other": "other-secret-zzzz", "empty": ""}
-		if c.Prev == "" {
-			keys["prev"] = "no-prev-configured"
-		}
-		accept := [][]byte{[]byte(c.Secret)}
-		if c.Prev != "" {
-			accept = append(accept, []byte(c.Prev))
 		}
 		for i, rq := range c.Reqs {
 			if rq.Adv > 0 {
 				time.Sleep(time.Duration(rq.Adv) * time.Second)
 			}
 			now := time.Now()
-			what := fmt.Sprintf("request %d", i)
+			gi := rq.G % len(c.Groups)
+			g := c.Groups[gi]
+			route := c04EngPathOf(gi)
+			tol := time.Duration(g.TolS) * time.Second
+			what := fmt.Sprintf("request %d to group %d %+v", i, gi, g)
+			// token keys: "cur"/"prev" are relative to the addressed group, p0..p2 name
+			// pool secrets directly (they may be another group's secret or prevSecret)
+			keys := map[string]string{"cur": g.secret(), "prev": g.prev(), "other": "other-secret-zzzz", "empty": "",
+				"p0": c04Pool[0], "p1": c04Pool[1], "p2": c04Pool[2]}
+			if g.prev() == "" {
+				keys["prev"] = c04Pool[(g.Secret+1)%len(c04Pool)] // plausibly a sibling group's prevSecret
+			}
+			accept := [][]byte{[]byte(g.secret())}
+			if g.prev() != "" {
+				accept = append(accept, []byte(g.prev()))
+			}
 
 			// wire form
 			ts := now.Unix() + rq.Off
 			sr := rq.Req
 			if !sr.ReqURI {
-				sr.Path = c04EngPath
+				sr.Path = route
 			}
 			wire := c04Sign(sr, ts)
 			if sr.ReqURI {
 				// the route is reached through the request line, the signature covers X-Request-Uri
-				wire.URLPath = c04EngPath
+				wire.URLPath = route
 				classes["x-request-uri"] = true
 			}
 			tampered := false
@@ -145,7 +182,7 @@ func c04EngInterp(t *testing.T, c c04EngCase) (v kit.Verdict) {
 				if present {
 					req.Header.Set("Authorization", value)
 				}
-				if c.Jwt {
+				if g.Jwt {
 					tok, ce := c04BearerToken(present, value)
 					switch ce {
 					case c04Accept:
@@ -156,18 +193,21 @@ func c04EngInterp(t *testing.T, c c04EngCase) (v kit.Verdict) {
 						jwtExp = c04Reject
 					}
 				}
-			} else if c.Jwt {
+			} else if g.Jwt {
 				jwtExp = c04Reject
 			}
 
 			// signature gate
 			sigExp := c04Accept
-			if c.Sig {
+			if g.Sig {
 				switch {
-				case !c.Strict || !c04Verified(wire.Method):
+				case !g.Strict || !c04Verified(wire.Method):
 					sigExp = c04Unspec
 				case !rq.Signed || tampered:
 					sigExp = c04Reject
+				case !g.hasKey(sr.Fp):
+					sigExp = c04Reject // signed for a key this group does not configure
+					classes["key-of-other-group"] = true
 				default:
 					sigExp = c04Tolerance(ts, now, tol)
 				}
@@ -197,12 +237,12 @@ func c04EngInterp(t *testing.T, c c04EngCase) (v kit.Verdict) {
 				}
 				rej401 = true
 				classes["401"] = true
-			case c.Jwt && code == http.StatusUnauthorized:
+			case g.Jwt && code == http.StatusUnauthorized:
 				fail = fmt.Sprintf("%s: JWT gate answered 401 for a token the reference verifier accepts (ran=%d)", desc, seen.ran)
 				return
 			case sigExp == c04Unspec:
 				classes["unspec-sig"] = true
-				if seen.ran == 1 && c.Jwt {
+				if seen.ran == 1 && g.Jwt {
 					for k, want := range claims {
 						if !c04Registered[k] && !c04SameJSON(want, seen.values[k]) {
 							fail = fmt.Sprintf("%s: claim %q = %v, context has %v", desc, k, want, seen.values[k])
@@ -218,6 +258,10 @@ func c04EngInterp(t *testing.T, c c04EngCase) (v kit.Verdict) {
 				rej403 = true
 				classes["403"] = true
 			default:
+				if seen.ran == 1 && seen.group != gi {
+					fail = fmt.Sprintf("%s: handler of group %d ran", desc, seen.group)
+					return
+				}
 				if seen.ran != 1 || code != http.StatusOK {
 					fail = fmt.Sprintf("%s: both gates satisfied, handler must run once and answer 200; ran=%d status=%d", desc, seen.ran, code)
 					return
@@ -229,10 +273,10 @@ func c04EngInterp(t *testing.T, c c04EngCase) (v kit.Verdict) {
 					}
 				}
 				wantBody := string(sr.plainBody())
-				if !c.Sig {
+				if !g.Sig {
 					wantBody = string(wire.Body) // no content-security gate: the body is passed as sent
 				}
-				if c.Sig && sr.CType == 1 && wire.Framing == "chunked" && len(wire.Body) > 0 {
+				if g.Sig && sr.CType == 1 && wire.Framing == "chunked" && len(wire.Body) > 0 {
 					// decryption of chunked uploads is outside the statement
 					classes["chunked+encrypted(body unjudged)"] = true
 				} else if string(seen.body) != wantBody {
@@ -244,19 +288,29 @@ func c04EngInterp(t *testing.T, c c04EngCase) (v kit.Verdict) {
 			}
 		}
 	})
-	switch {
-	case c.Jwt && c.Sig:
-		classes["cfg:jwt+sig"] = true
-		v.NonTrivial = ranOK && rej401 && rej403
-	case c.Jwt:
-		classes["cfg:jwt"] = true
-		v.NonTrivial = ranOK && rej401
-	case c.Sig:
-		classes["cfg:sig"] = true
-		v.NonTrivial = ranOK && rej403
-	default:
-		classes["cfg:open"] = true
+	anyJwt, anySig := false, false
+	for i, g := range c.Groups {
+		anyJwt = anyJwt || g.Jwt
+		anySig = anySig || (g.Sig && g.Strict)
+		for j := 0; j < i; j++ {
+			h := c.Groups[j]
+			switch {
+			case g.Jwt && h.Jwt && g.Secret == h.Secret && g.Prev != h.Prev:
+				classes["groups:same-secret-different-prev"] = true
+			case g.Jwt && h.Jwt && g.Secret != h.Secret && g.Prev == h.Prev && g.Prev > 0:
+				classes["groups:same-prev-different-secret"] = true
+			case g.Jwt && h.Jwt && g.Secret == h.Secret && g.Prev == h.Prev:
+				classes["groups:same-jwt-config"] = true
+			case g.Jwt != h.Jwt:
+				classes["groups:jwt-and-no-jwt"] = true
+			}
+			if g.Sig && h.Sig && (g.Keys != h.Keys || g.Strict != h.Strict || g.TolS != h.TolS) {
+				classes["groups:different-signature-config"] = true
+			}
+		}
 	}
+	classes[fmt.Sprintf("groups:%d", len(c.Groups))] = true
+	v.NonTrivial = ranOK && (!anyJwt || rej401) && (!anySig || rej403) && (anyJwt || anySig)
 	v.Classes = c04ClassList(classes)
 	if fail != "" {
 		v.Fail = fail
@@ -267,45 +321,67 @@ func c04EngInterp(t *testing.T, c c04EngCase) (v kit.Verdict) {
 	return v
 }
 
-func c04EngGen(rt *rapid.T) c04EngCase {
-	c := c04EngCase{}
-	cfg := rapid.SampledFrom([]string{"jwt+sig", "jwt+sig", "jwt+sig", "jwt", "sig", "open"}).Draw(rt, "cfg")
-	c.Jwt = cfg == "jwt+sig" || cfg == "jwt"
-	c.Sig = cfg == "jwt+sig" || cfg == "sig"
-	if c.Jwt {
-		si := rapid.IntRange(0, len(c04Secrets)-1).Draw(rt, "secret")
-		c.Secret = c04Secrets[si]
-		if rapid.IntRange(0, 9).Draw(rt, "hasprev") < 7 {
-			pi := rapid.IntRange(0, len(c04Secrets)-1).Draw(rt, "prev")
-			c.Prev = c04Secrets[pi]
-			if pi == si {
-				c.Prev = c.Secret + "-old"
-			}
+func c04EngGenGroup(rt *rapid.T, first *c04EngGroup) c04EngGroup {
+	g := c04EngGroup{}
+	cfg := rapid.SampledFrom([]string{"jwt+sig", "jwt+sig", "jwt", "jwt", "sig", "open"}).Draw(rt, "cfg")
+	g.Jwt = cfg == "jwt+sig" || cfg == "jwt"
+	g.Sig = cfg == "jwt+sig" || cfg == "sig"
+	if g.Jwt {
+		g.Secret = rapid.IntRange(0, len(c04Pool)-1).Draw(rt, "secret")
+		if first != nil && first.Jwt && rapid.Bool().Draw(rt, "same-secret") {
+			g.Secret = first.Secret
+		}
+		g.Prev = rapid.IntRange(0, len(c04Pool)).Draw(rt, "prev")
+		if first != nil && first.Jwt && first.Prev > 0 && g.Secret != first.Secret && rapid.Bool().Draw(rt, "same-prev") {
+			g.Prev = first.Prev
+		}
+		if g.Prev-1 == g.Secret {
+			g.Prev = 0
 		}
 	}
-	if c.Sig {
-		c.Strict = rapid.IntRange(0, 9).Draw(rt, "strict") < 9
-		c.TolS = rapid.SampledFrom([]int64{1, 2, 60, 3600}).Draw(rt, "tol")
+	if g.Sig {
+		g.Strict = rapid.IntRange(0, 9).Draw(rt, "strict") < 9
+		g.TolS = rapid.SampledFrom([]int64{1, 2, 60, 3600}).Draw(rt, "tol")
+		g.Keys = rapid.SampledFrom([]string{"ab", "ab", "a", "b"}).Draw(rt, "keys")
 	}
-	n := rapid.IntRange(1, 8).Draw(rt, "nreq")
+	return g
+}
+
+func c04EngGen(rt *rapid.T) c04EngCase {
+	c := c04EngCase{}
+	ng := rapid.IntRange(1, 4).Draw(rt, "ngroups")
+	for i := 0; i < ng; i++ {
+		var first *c04EngGroup
+		if i > 0 {
+			first = &c.Groups[0]
+		}
+		c.Groups = append(c.Groups, c04EngGenGroup(rt, first))
+	}
+	n := rapid.IntRange(1, 10).Draw(rt, "nreq")
 	for i := 0; i < n; i++ {
 		rq := c04EngReq{Adv: rapid.SampledFrom([]int{0, 0, 1, 2, 3600, 90000}).Draw(rt, "adv")}
+		rq.G = rapid.IntRange(0, ng-1).Draw(rt, "group")
+		g := c.Groups[rq.G]
 		rq.Req = c04GenSigReq(rt)
-		if c.Jwt || rapid.IntRange(0, 3).Draw(rt, "tok?") == 0 {
+		if g.Jwt || rapid.IntRange(0, 3).Draw(rt, "tok?") == 0 {
 			if rapid.IntRange(0, 9).Draw(rt, "hastok") < 9 {
-				tk := c04GenTok(rt, c.Prev != "")
+				tk := c04GenTok(rt, g.Prev > 0)
+				if rapid.IntRange(0, 3).Draw(rt, "poolkey?") == 0 {
+					// a token signed with a pool secret, whatever this group configures
+					tk.Key = rapid.SampledFrom([]string{"p0", "p1", "p2"}).Draw(rt, "poolkey")
+				}
 				rq.Tok = &tk
 				rq.Car = c04GenCarrier(rt)
 			}
 		}
-		if c.Sig || rapid.IntRange(0, 3).Draw(rt, "signed?") == 0 {
+		if g.Sig || rapid.IntRange(0, 3).Draw(rt, "signed?") == 0 {
 			rq.Signed = rapid.IntRange(0, 9).Draw(rt, "signed") < 9
 			if rapid.IntRange(0, 9).Draw(rt, "tamper?") < 3 {
 				rq.Tamper = rapid.SampledFrom(c04Tampers).Draw(rt, "tamper")
 				rq.Arg = rapid.IntRange(0, 1000).Draw(rt, "arg")
 				rq.Shape = rapid.SampledFrom(c04Shapes).Draw(rt, "shape")
 			}
-			tolS := c.TolS
+			tolS := g.TolS
 			rq.Off = rapid.SampledFrom([]int64{0, 0, 0, 0, tolS, -tolS, tolS + 1, -tolS - 1, 86400 * 3}).Draw(rt, "off")
 		}
 		c.Reqs = append(c.Reqs, rq)
